@@ -68,6 +68,25 @@ fn views(x: &[u8], h: &v2::Header<'_>, which: &str) -> Verdict {
             format!("len {}, is_empty {}", tl.len(), tl.is_empty()),
         );
     }
+    // the views of the TLV iterator describe the section, not the iterator's progress: after one, two, all items have been
+    // taken they are what they were (the same reading as C10 / C13 / C20: a partly consumed iterator is still the section)
+    {
+        let mut it = h.tlvs();
+        for step in 0..3 {
+            let advanced = match step {
+                0 => it.next().is_some(),
+                1 => it.next().is_some(),
+                _ => it.by_ref().take(4096).count() > 0,
+            };
+            if it.as_bytes() != tb || it.len() != tb.len() as u16 || it.is_empty() != tb.is_empty() {
+                return fail(
+                    "tlvs-view-after-next",
+                    format!("after taking items (step {}, advanced {}): as_bytes()==tlv_bytes ({} bytes), len, is_empty unchanged", step, advanced, tb.len()),
+                    format!("as_bytes {} bytes, len {}, is_empty {}", it.as_bytes().len(), it.len(), it.is_empty()),
+                );
+            }
+        }
+    }
     if h.version as u8 != (x[12] & 0xF0) || h.command as u8 != (x[12] & 0x0F) || h.protocol as u8 != (x[13] & 0x0F) {
         return fail("control", "version/command/protocol equal the wire nibbles".into(), format!("{:?} {:?} {:?}", h.version, h.command, h.protocol));
     }
